@@ -249,6 +249,17 @@ theorem message_bytes (m : Spec.RB.Msg) (hk : RW.InRange RW.M32 (Spec.RB.optLen 
     BR.AllOrShort BR.readBodyV1 (encB1 m) (m.key, m.value) ∧ BR.AllOrShort BR.skipBodyV1 (encB1 m) () :=
   ⟨BR.readBodyV1_spec m hk hv, BR.skipBodyV1_spec m hk hv⟩
 
+/-- `wrapper_bytes`: the body of a compressed v0/v1 wrapper message (readMessageV1, `codec != nil`: `discardBytes()`,
+`readBytesWith(decompress)`): whatever key the wrapper carries — null as producers write it, or any other; the pinned
+code skipped exactly four bytes there (C05-D31, fixed by the records builder) — it is passed over, and what the codec
+is handed are exactly the bytes of the compressed inner set; all of the body is consumed, and a body cut anywhere gives
+errShortRead. -/
+theorem wrapper_bytes (enc : Int → Bytes → Bytes) (crc : Bytes → Nat) (m : Spec.RB.Msg) (codec : Int)
+    (inner : List Spec.RB.Msg) (hk : RW.InRange RW.M32 (Spec.RB.optLen m.key : Int))
+    (hv : RW.InRange RW.M32 ((enc codec (encMsgs crc inner)).length : Int)) :
+    BR.AllOrShort BR.readWrapV1 (encB1 (wrapMsg enc crc m codec inner)) (some (enc codec (encMsgs crc inner))) :=
+  BR.readWrapV1_spec (wrapMsg enc crc m codec inner) hk (by simpa [wrapMsg, Spec.RB.optLen] using hv)
+
 /-! ### the decoder as the Go code is written (Model/PullReader.lean)
 
 `Pull.readAll` follows message_reader.go / batch.go statement by statement: the reader stack, `readHeader`, the loop over
